@@ -31,7 +31,10 @@ Level 3 (combine_simulation_results / combine_simulation_parameters): one or
     float in the other; numpy scalars vs Python scalars); the union must hold,
     per parameter combination and aligned with the union's unpack order, the
     reference statistics of "history in operand 1 followed by history in
-    operand 2"; operands must be unchanged.
+    operand 2" and equal one object fed the same observations; operands must be
+    unchanged.  Per-variation histories include the EMPTY history (a result
+    never updated) at the first / middle / last variation of either operand or
+    everywhere, for every type, CHOICETYPE with 2, 3 and 5 choices.
 """
 import copy
 import itertools
@@ -55,7 +58,10 @@ RULE = ("result level: every observation sequence of length <= L over the per-ty
         "per-value histories x 6 value universes (small ints, tiny floats, large floats a step / one ulp apart, "
         "case/suffix-confusable strings, int-vs-float and numpy-vs-Python spellings of equal values), with every "
         "get_pack_indexes / get_result_values_list look-up by fixed value (present and absent, Python and numpy "
-        "scalar) checked against a brute-force filter on the union and on both operands. Oracles: sufficient-statistics reference model, one object fed the whole "
+        "scalar) checked against a brute-force filter on the union and on both operands; empty (never updated) "
+        "per-variation histories at the first / middle / last variation of either operand or everywhere x every "
+        "type x CHOICE with 2/3/5 choices, each combined result also compared with one object fed the same "
+        "observations. Oracles: sufficient-statistics reference model, one object fed the whole "
         "sequence, operand snapshots after every merge. A case is non-trivial when it executes at least one "
         "merge/append/combine; distinct = distinct (level, types, accumulate, observations, term)")
 
@@ -134,10 +140,10 @@ def dg(c):
 # reference model: sufficient statistics folded over the observations in order
 # ----------------------------------------------------------------------
 class Ref:
-    def __init__(self, t, obs=()):
+    def __init__(self, t, obs=(), k=None):
         self.t = t
         self.n = 0
-        self.value = [0] * CHOICE_NUM if t == "CHOICE" else 0
+        self.value = [0] * (k or CHOICE_NUM) if t == "CHOICE" else 0
         self.total = 0
         self.s1 = 0.0
         self.s2 = 0.0
@@ -238,7 +244,7 @@ def compare(got, ref, acc, lists=True, misc_counts=False):
     elif ref.n == 0:
         chk_("get_result", res, exp, isinstance(res, str) and res == exp)
         if t == "CHOICE":
-            chk_("value", got._value, ref.value, np.shape(got._value) == (CHOICE_NUM,)
+            chk_("value", got._value, ref.value, np.shape(got._value) == (len(ref.value),)
                  and list(np.asarray(got._value).tolist()) == ref.value)
         else:
             chk_("value", got._value, 0, feq(got._value, 0))
@@ -246,10 +252,10 @@ def compare(got, ref, acc, lists=True, misc_counts=False):
     else:
         if t == "CHOICE":
             v = np.asarray(got._value)
-            chk_("value", got._value, ref.value, v.shape == (CHOICE_NUM,) and v.dtype.kind in "iu"
+            chk_("value", got._value, ref.value, v.shape == (len(ref.value),) and v.dtype.kind in "iu"
                  and v.tolist() == ref.value)
             r = np.asarray(res)
-            chk_("get_result", res, exp, r.shape == (CHOICE_NUM,)
+            chk_("get_result", res, exp, r.shape == (len(ref.value),)
                  and all(feq(float(a), b) for a, b in zip(r.tolist(), exp)))
         else:
             chk_("value", got._value, ref.value, feq(got._value, ref.value))
@@ -396,15 +402,15 @@ def has_empty_operand(t):
     return span(t[2]) == 0 or has_empty_operand(t[1]) or has_empty_operand(t[2])
 
 
-def new_result(t, acc, name="r"):
+def new_result(t, acc, name="r", k=None):
     R = _R()
     if t == "CHOICE":
-        return R(name, R.CHOICETYPE, accumulate_values=acc, choice_num=CHOICE_NUM)
+        return R(name, R.CHOICETYPE, accumulate_values=acc, choice_num=k or CHOICE_NUM)
     return R(name, type_code(t), accumulate_values=acc)
 
 
-def fed(t, acc, obs, name="r"):
-    r = new_result(t, acc, name)
+def fed(t, acc, obs, name="r", k=None):
+    r = new_result(t, acc, name, k)
     for o in obs:
         r.update(*copy.deepcopy(o))     # the alphabet must never be aliased by the implementation
     return r
@@ -781,9 +787,11 @@ def nonempty_subsets(u):
     return out
 
 
-def hist(t, which, hv, rx, ry):
+def hist(t, which, hv, rx, ry, k=None):
     """deterministic per-value history (by value RANK): 1-2 observations of the type's alphabet"""
     al = alphabets()[t][:3]
+    if t == "CHOICE" and k:
+        al = [[0], [(k - 1) // 2], [k - 1]]        # lowest, middle, highest choice
     ry = ry or 0
     k = 2 * rx + ry + 3 * which + hv
     n = 1 + (rx + ry + which + hv) % 2
@@ -794,7 +802,33 @@ def tag_of(rx, ry):
     return 100 * (rx + 1) + (0 if ry is None else 10 * (ry + 1))
 
 
-def build_operand(t, acc, which, hv, universe, rxs, rys, order, empty=False):
+def variation_positions(n):
+    """named positions in a list of n variations -> index"""
+    out = {"first": 0, "last": n - 1}
+    if n >= 3:
+        out["middle"] = n // 2
+    return out
+
+
+def empty_positions(spec, which, n):
+    """which variations of operand `which` (0/1, holding n variations) have an
+    EMPTY history (a result that was never updated: every repetition skipped).
+    spec: None | [operand, position] with operand in {0, 1, 'both'} and position
+    in {'first', 'middle', 'last', 'all'}; legacy: True = everything empty"""
+    if not spec:
+        return set()
+    if spec is True:
+        return set(range(n))
+    op, pos = spec
+    if op != "both" and op != which:
+        return set()
+    if pos == "all":
+        return set(range(n))
+    idx = variation_positions(n).get(pos)
+    return set() if idx is None else {idx}
+
+
+def build_operand(t, acc, which, hv, universe, rxs, rys, order, empty=None, k=None):
     """returns (SimulationResults, x ranks in stored order, y ranks or None)"""
     from pyphysim.simulations.parameters import SimulationParameters
     from pyphysim.simulations.results import SimulationResults
@@ -814,9 +848,13 @@ def build_operand(t, acc, which, hv, universe, rxs, rys, order, empty=False):
     s = SimulationResults()
     s.set_parameters(p)
     # documented order: unpacked names sorted, cartesian product, last name fastest
+    nvar = len(rxs) * (len(rys) if rys is not None else 1)
+    emp = empty_positions(empty, which, nvar)
+    pos = -1
     for rx in rxs:
         for ry in (rys if rys is not None else [None]):
-            s.append_result(fed(t, acc, [] if empty else hist(t, which, hv, rx, ry), "r"))
+            pos += 1
+            s.append_result(fed(t, acc, [] if pos in emp else hist(t, which, hv, rx, ry, k), "r", k))
             tag = R("tag", R.SUMTYPE)
             tag.update(tag_of(rx, ry))
             s.append_result(tag)
@@ -894,16 +932,21 @@ def run_union_case(c, case):
     universe = case.get("universe", "int")
     U = UNIVERSES[universe]
     x1, x2, y1, y2 = case["x1"], case["x2"], case["y1"], case["y2"]     # value RANKS
-    empty = bool(case.get("empty"))     # operands hold results that were never updated
+    empty = case.get("empty")           # which variations hold results that were never updated
+    k = case.get("choice_num")
     with c.guard(("combine_simulation_results", t), case):
-        s1, ox1, oy1 = build_operand(t, acc, 0, hv, universe, x1, y1, case["order"], empty)
-        s2, ox2, oy2 = build_operand(t, acc, 1, hv, universe, x2, y2, case["order"], empty)
+        s1, ox1, oy1 = build_operand(t, acc, 0, hv, universe, x1, y1, case["order"], empty, k)
+        s2, ox2, oy2 = build_operand(t, acc, 1, hv, universe, x2, y2, case["order"], empty, k)
+        ord1 = [(rx, ry) for rx in ox1 for ry in (oy1 if oy1 is not None else [None])]
+        ord2 = [(rx, ry) for rx in ox2 for ry in (oy2 if oy2 is not None else [None])]
+        emp1 = empty_positions(empty, 0, len(ord1))
+        emp2 = empty_positions(empty, 1, len(ord2))
         snap1, snap2 = canon(vars(s1)), canon(vars(s2))
         u = combine_simulation_results(s1, s2)
         c.count("eval_union_cases")
         c.transitions += 1
         c.traces_validated += 1
-        c.nontriv(("u", universe, t, acc, hv, repr((x1, x2, y1, y2)), case["order"]))
+        c.nontriv(("u", universe, t, acc, hv, repr((x1, x2, y1, y2)), case["order"], str(empty), k))
         c.outcome("union_universes", universe)
         if canon(vars(s1)) != snap1 or canon(vars(s2)) != snap2:
             c.fail(("combine_simulation_results", "operand_mutated"), case,
@@ -950,10 +993,12 @@ def run_union_case(c, case):
             y = None if ry is None else U["Y"][ry]
             in1 = rx in x1 and (ry is None or ry in y1)
             in2 = rx in x2 and (ry is None or ry in y2)
-            obs = (hist(t, 0, hv, rx, ry) if in1 else []) + (hist(t, 1, hv, rx, ry) if in2 else [])
-            if empty:
-                obs = []
-            ref = Ref(t, obs)
+            obs = []
+            if in1 and ord1.index((rx, ry)) not in emp1:
+                obs += hist(t, 0, hv, rx, ry, k)
+            if in2 and ord2.index((rx, ry)) not in emp2:
+                obs += hist(t, 1, hv, rx, ry, k)
+            ref = Ref(t, obs, k)
             outcome.append(int(in1) + 2 * int(in2))
             # the union is built from non-accumulating results: lists are not part of the law
             for field, o, e in compare(u["r"][i], ref, False, lists=False,
@@ -961,6 +1006,14 @@ def run_union_case(c, case):
                 c.fail(("combine_simulation_results", t, field), dict(case, combo=[x, y]),
                        observed=o, expected=e,
                        msg="combination x=%r y=%r present in operand1=%s operand2=%s" % (x, y, in1, in2))
+            # differential: ONE object fed the same observations (value / total / num_updates / sums / ==)
+            one = fed(t, False, obs, "r", k)
+            for field, o, e in dedup(compare_objects(u["r"][i], one, t, dyadic(t, obs))):
+                c.fail(("combine_simulation_results", t, field), dict(case, combo=[x, y]),
+                       observed=o, expected=e,
+                       msg="against one object fed %r (combination x=%r y=%r)" % (obs, x, y))
+            if empty:
+                c.outcome("union_empty_history_outcomes", (t, k, str(empty), len(obs) == 0))
             tagv = tag_of(rx, ry) * (int(in1) + int(in2))
             # a combination present in neither operand holds a never-updated result
             utags.append(tagv if (in1 or in2) else "Nothing yet")
@@ -998,6 +1051,24 @@ def union_cases(types_ok, tier):
             for x2 in xs:
                 yield {"level": "union", "universe": "int", "type": "CHOICE", "acc": False, "hv": 0,
                        "order": "asc", "x1": x1, "x2": x2, "y1": None, "y2": None, "empty": True}
+    # EMPTY histories (a variation whose result was never updated) at every position of either operand,
+    # every result type, CHOICE with 2 / 3 / 5 choices (never 11 = len("Nothing yet"))
+    if "CHOICE" in types_ok:
+        specs = [None] + [[op, pos] for op in (0, 1) for pos in ("first", "middle", "last")] \
+            + [[0, "all"], [1, "all"], ["both", "all"]]
+        configs = [(t, None) for t in types_ok if t != "CHOICE"] + [("CHOICE", kk) for kk in (2, 3, 5)]
+        yconf = [(None, None), ([0, 1], [0, 1])] + ([([0], [0, 1]), ([0, 1], [1])] if tier == "thorough" else [])
+        for t, kk in configs:
+            for spec in specs:
+                for x1 in xs:
+                    for x2 in xs:
+                        for y1, y2 in yconf:
+                            if spec and spec[1] == "middle" and \
+                                    len(x1 if spec[0] == 0 else x2) * (2 if y1 else 1) < 3:
+                                continue        # no middle variation
+                            yield {"level": "union", "universe": "int", "type": t, "acc": False, "hv": 0,
+                                   "order": "asc", "x1": x1, "x2": x2, "y1": y1, "y2": y2, "empty": spec,
+                                   "choice_num": kk, "lookups": False}
     orders = ("asc", "desc")
     for universe in UNIVERSES:
         one_param_only = ()
@@ -1125,6 +1196,8 @@ def main(chk: Check):
     chk.require_outcomes("final_stats", 50)
     chk.require_outcomes("union_presence_patterns", 20)
     chk.require_outcomes("union_universes", len(UNIVERSES))
+    if choice_ok:
+        chk.require_outcomes("union_empty_history_outcomes", 40)
     chk.require_outcomes("lookup_outcomes", 4)
     chk.require_outcomes("set_states", 50)
     chk.require_outcomes("fold_list_lengths", 4)
